@@ -37,7 +37,15 @@ def main():
         spec = arm(kind, pts[0])
         from pyworkers.thread import ThreadWorker
         from pyworkers.process import ProcessWorker
-        cls = ThreadWorker if kind == 'thread' else ProcessWorker
+        server = None
+        if kind == 'remote':
+            # the injector is inherited by the server process and by the backend it spawns; only the backend executes the named function
+            from pyworkers.remote import RemoteWorker
+            from pyworkers.remote_server import spawn_server
+            server = spawn_server(('127.0.0.1', 0))
+            cls = (lambda srv: (lambda fn_, **kw: RemoteWorker(fn_, host=srv.addr, **kw)))(server)
+        else:
+            cls = ThreadWorker if kind == 'thread' else ProcessWorker
         fn = {'raises': T.set_state_and_raise, 'returns': T.set_state_and_return, 'loop': T.cooperative_loop}[tm]
         args = () if tm == 'loop' else (5,)
         res = {}
@@ -56,6 +64,11 @@ def main():
         t.start()
         t.join(15)
         os.environ.pop('PYVC_INJECT', None)
+        if server is not None:
+            try:
+                server.terminate(timeout=2, force=True)
+            except Exception:
+                pass
         sys.settrace(None)
         threading.settrace(None)
         obs[tm] = dict(res, inject=spec)
